@@ -2,7 +2,9 @@
 # runs every claimed check (tier $1, default quick) and prints one summary line each
 cd "$(dirname "$0")/.."
 tier=${1:-quick}
+logd=$(mktemp -d /tmp/runall.XXXXXX)
 for p in C01 C02 C03 C04 C05 C06 C07 C08 C09 C10 C11 C12 C13 C14 C15 C16 C17 C18 C19 C20; do
-  ./vcheck $p --tier $tier > /tmp/runall_$p.log 2>&1; rc=$?
-  echo "rc=$rc $(tail -1 /tmp/runall_$p.log | cut -c1-200)"
+  ./vcheck $p --tier $tier > $logd/$p.log 2>&1; rc=$?
+  echo "rc=$rc $(tail -1 $logd/$p.log | cut -c1-200)"
 done
+rm -rf "$logd"
